@@ -579,6 +579,38 @@ func wideCandidates(rng *hx.Rng, thorough bool) []*wcand {
 			add(gotype, strings.Join(p, s), extra)
 		}
 	}
+	// round 5: rule pairs whose parameters are RELATED — equal (a degenerate interval), adjacent (N, N+1) and reversed
+	// (min > max: unsatisfiable) — on every field type the wide runner compares behaviour for, in both orders of the rules,
+	// with probes at N-1, N, N+1. N is drawn per run; nothing here depends on its value.
+	for _, gotype := range []string{"string", "*string", "int", "int64", "float64"} {
+		n := 2 + rng.Intn(7)
+		isStr := strings.HasSuffix(gotype, "string")
+		var around []string
+		for d := -1; d <= 2; d++ {
+			if isStr {
+				around = append(around, strings.Repeat("q", n+d))
+			} else {
+				around = append(around, strconv.Itoa(n+d))
+			}
+		}
+		lo, hi := [][2]string{{"min", "max"}}, 0
+		if isStr {
+			lo = append(lo, [2]string{"min", "length"}, [2]string{"length", "max"})
+		} else {
+			lo = append(lo, [2]string{"gte", "lte"}, [2]string{"gt", "lt"}, [2]string{"min", "lte"}, [2]string{"gte", "max"})
+		}
+		for _, pr := range lo {
+			for _, rel := range [][2]int{{0, 0}, {0, 1}, {1, 0}, {2, 0}} { // equal, adjacent, reversed by one, reversed by two
+				a, b := pr[0]+"="+strconv.Itoa(n+rel[0]), pr[1]+"="+strconv.Itoa(n+rel[1])
+				add(gotype, a+","+b, around)
+				add(gotype, b+","+a, around)
+				if hi < 2 { // and as a triple with `required`
+					add(gotype, "required,"+a+","+b, around)
+					hi++
+				}
+			}
+		}
+	}
 	// round 4: every kind of field type the writer distinguishes (basicTypeConstructors, time.Time, named structs, pointers,
 	// slices, maps, nestings of those, references to the enclosing struct = SELF), each with tags of its kind; these are
 	// emitted and type-checked one struct at a time (texpr: emitted text and compile status against the Lean typing judgement)
